@@ -97,6 +97,9 @@ def parseOp (ws : List String) : Option Op :=
   | ["executed", c, g, n] => do pure (.executed (← c.toNat?) (← g.toNat?) (← n.toNat?))
   | ["btimeout", c, g, n] => do pure (.btimeout (← c.toNat?) (← g.toNat?) (← n.toNat?))
   | ["bcout", c, u, r, pre, ts] => do pure (.bcout (← c.toNat?) (← u.toNat?) (← r.toNat?) (← parseTokens ts) (pre == "1"))
+  | ["vbcout", c, g, u, r, v, ts] => do
+    let toks ← if ts == "-" then some [] else parseTokens ts
+    pure (.vbcout (← c.toNat?) (← g.toNat?) (← u.toNat?) (← r.toNat?) (← v.toNat?) toks)
   | ["bcresult", c, n, ok] => do pure (.bcresult (← c.toNat?) (← n.toNat?) (ok == "1"))
   | ["bctimeout", c, n] => do pure (.bctimeout (← c.toNat?) (← n.toNat?))
   | ["bcin", c, to, ts] => do pure (.bcin (← c.toNat?) (← to.toNat?) (← parseTokens ts))
